@@ -874,7 +874,10 @@ def generate(repo):
         # with C10 (the two sides may be written out in the loop or live in a helper called once per side)
         sd = q2d_sides(qp, fn, loop)['sides']
         calls_ok = all(r['ok'] and r['coef_ok'] for r in sd.values()) and sd['Sa']['call'] == sd['Sprimea']['call'] \
-            and sd['Sb']['call'] == sd['Sprimeb']['call']
+            and sd['Sb']['call'] == sd['Sprimeb']['call'] and all(r.get('threshold') == 2 for r in sd.values())
+        # the m = 1 correction guarded by `N > K` with a literal K other than 2: recognised and wrong (sag and slope of that side
+        # lose or gain the -2/5 alpha_3 term for lists of exactly K + 1 or fewer coefficients)
+        thr_wrong = any(r.get('threshold') not in (None, 2) for r in sd.values())
         m0 = [s for s in fn.body if isinstance(s, ast.If) and 'cm0' in ast.unparse(s.test) and not is_rebind(s, 'cm0')]
         m0_ok = len(m0) == 1 and any(stmt_is(s, 'zm0, zprimem0 = compute_z_zprime_Qbfs(cm0, u, usq)') for s in m0[0].body) \
             and any(stmt_is(s, 'dr += zprimem0') for s in m0[0].body)
@@ -885,7 +888,7 @@ def generate(repo):
             f'def zzQ2dBTerm (s tw Spb m Sb : K) : K := {bt}',
             f'def zzQ2dDr (umm1 ta tb : K) : K := {dr}',
             f'def zzQ2dDt (m um Sa Sb s c : K) : K := {dt}',
-            f'def zzQ2dSlopeStructure : Bool := {tri(umm1_ok and usq_ok and calls_ok and m0_ok and ret_ok)}',
+            f'def zzQ2dSlopeStructure : Bool := {tri(umm1_ok and usq_ok and calls_ok and m0_ok and ret_ok, wrong=thr_wrong)}',
         ])
     g.item('compute_z_zprime_Q2d.slopes', f'{QP}:compute_z_zprime_Q2d', lambda: get_def(qp, 'compute_z_zprime_Q2d'), zzq2d,
            '\n'.join(['def zzQ2dTwoUsq (usq : K) : K := ofInt 2 * usq',
@@ -1057,8 +1060,9 @@ def generate(repo):
         return out
 
     def fill_fact():
-        # a constructor that takes its dtype from a coordinate array (np.full_like(x, v), np.full(shape, v, dtype=x.dtype)) and fills
-        # it with a computed value truncates that value on integer coordinates - unless the coordinates were made floating point first
+        # a constructor that takes its dtype from a coordinate array (np.full_like(x, v), np.full(shape, v, dtype=x.dtype), an output
+        # table np.zeros / np.empty(shape, dtype=x.dtype) that the rows are stored into) truncates the computed values on integer
+        # coordinates - unless the coordinates were made floating point first
         che, _ = load(repo, 'prysm/polynomials/cheby.py')
         leg, _ = load(repo, 'prysm/polynomials/legendre.py')
         fns = [(jac, 'jacobi_der'), (jac, 'jacobi_der_seq'), (her, 'hermite_He_der'), (her, 'hermite_H_der'), (her, 'hermite_He_der_seq'),
@@ -1077,7 +1081,7 @@ def generate(repo):
                     fill = c.args[1] if len(c.args) > 1 else next((k.value for k in c.keywords if k.arg == 'fill_value'), None)
                     if not (isinstance(fill, ast.Constant) and isinstance(fill.value, int)):
                         return False
-                if f.endswith(('np.full', 'np.array', 'np.asarray')) and any(
+                if f.endswith(('np.full', 'np.array', 'np.asarray', 'np.zeros', 'np.empty')) and any(
                         k.arg == 'dtype' and ast.unparse(k.value) in {f'{q}.dtype' for q in coords} for k in c.keywords):
                     return False
         return True
